@@ -577,7 +577,7 @@ pub fn check_cmd(tier: Tier) -> i32 {
     }
     summary.extra.insert("specs".into(), serde_json::json!(preps.iter().map(|(p, stride)| format!("{}: {} bytes of write traffic in {} calls, final size {}, budget stride {}", p.name, p.total, p.bounds.len(), p.final_size, stride)).collect::<Vec<_>>()));
     summary.extra.insert("exhaustive".into(), serde_json::json!(false));
-    let rule = "enumeration of crash points: BasicCreator runs in a child process under an LD_PRELOAD shim that gives the process a byte budget over all writes to regular files of the destination directory (write/pwrite/writev/copy_file_range/sendfile): the call crossing the budget is shortened, the next one kills the process (SIGKILL) or fails with ENOSPC from then on. For each spec (tiny containers in the three packagings with every byte offset 0..total; larger ones with a stride plus every write-call boundary +-1) x {fresh destination, destination holding a previous complete container of other content} x {kill, ENOSPC}. Oracle on the destination directory after the child ended, however it ended: the entry point is absent (only if nothing was there before), byte-identical to the previous file, or opens with Container::new, check()==true and every entry and content equal to the model of the new spec (so every pack file it refers to is complete); with budget >= total the run must succeed. Non-trivial = budget strictly inside the write stream; distinct by (spec, pre-existing, mode, decile of the stream, destination state, how the child ended).";
+    let rule = "enumeration of crash points: BasicCreator runs in a child process under an LD_PRELOAD shim that gives the process a byte budget over all writes to regular files of the destination directory (write/pwrite/writev/copy_file_range/sendfile): the call crossing the budget is shortened, the next one kills the process (SIGKILL) or fails with ENOSPC from then on. For each spec (tiny containers in the three packagings with every byte offset 0..total; larger ones with a stride plus every write-call boundary +-1) x {fresh destination, destination holding a previous complete container of other content} x {kill, ENOSPC}. Oracle on the destination directory after the child ended, however it ended: the entry point is absent (only if nothing was there before), byte-identical to the previous file, or opens with Container::new, check()==true and every entry and content equal to the model of the new spec (so every pack file it refers to is complete); with budget >= total the run must succeed. Non-trivial = budget strictly inside the write stream; distinct by (spec, pre-existing, mode, decile of the stream, destination state, how the child ended). Two further fault kinds, each x {fresh, pre-existing}: (rename obstruction) a non-empty directory sits at the final path of an output file other than the entry point: the entry point must not appear as the new container; (unreadable input) every content of the main pack in turn is handed over as a file whose reads fail when the creator comes to it: creation must fail leaving nothing / the previous file, or (content already read) produce the complete container.";
     write_evidence(id, "fault_enumeration", tier, seed, rule, vec!["crash = process termination or write error; the page cache survives (no power-loss claim)".into(), "failures of rename itself are not injected (rustix raw syscalls are invisible to the shim); killing at the adjacent writes yields the same destination states".into(), "leftover temporary files are allowed: the property speaks about the destination path".into()], t0, &summary);
     if !summary.violations.is_empty() {
         return 1;
